@@ -307,3 +307,66 @@ func H_C04_DS() {
 	vAssert("c04.ds-b-unchanged", vAnd(same, ok))
 	db.Close()
 }
+
+// H_C03_TreePaging: paging over a multi-leaf tree. The tree is built by the real Insert from m
+// symbolic 2-byte keys sharing a one-byte prefix (assumed ascending, so building forks nowhere); one
+// record (any position) is a tombstone or an expired record; offset and limit are symbolic. The result
+// of BPTree.PrefixScan must be the live keys ranked (offset, offset+limit].
+func H_C03_TreePaging() {
+	vSetup()
+	defer vCleanup()
+	sizes := []int{5, 9, 13}
+	m := sizes[vChoose(vParam("nsizes"))]
+	t := NewTree()
+	p := vBytes(1)
+	keys := make([][]byte, m)
+	for i := range keys {
+		keys[i] = []byte{p[0], vNondetByte()}
+		if i > 0 {
+			vAssume(keys[i-1][1] < keys[i][1])
+		}
+	}
+	dead := vChoose(m)
+	deadKind := vChoose(2)
+	pat := vChoose(2)
+	for _, i := range treePattern(m, pat) {
+		meta := &MetaData{Flag: DataSetFlag}
+		if i == dead {
+			if deadKind == 0 {
+				meta.Flag = DataDeleteFlag
+			} else {
+				meta.TTL, meta.timestamp = 5, uint64(vNow()-10)
+			}
+		}
+		_ = t.Insert(keys[i], nil, &Hint{key: keys[i], dataPos: uint64(i + 1), meta: meta}, CountFlagEnabled)
+	}
+	offset, limit := vNondetInt(), vNondetInt()
+	vAssume(vAnd(offset >= 0, offset <= m+1))
+	vAssume(vOr(limit == ScanNoLimit, vAnd(limit >= 1, limit <= m+1)))
+	vReach("c03.tree-scan")
+	rs, _, err := t.PrefixScan(p, offset, limit)
+	// model: live keys are all but `dead`, in key order (= index order)
+	live := m - 1
+	rest := vIte(live > offset, live-offset, 0)
+	want := vIte(vAnd(limit > 0, limit < rest), limit, rest)
+	if err != nil {
+		vAssert("c03.tree.error-only-when-window-empty", want == 0)
+		return
+	}
+	vAssert("c03.tree.count", len(rs) == want)
+	ok := true
+	for j, r := range rs {
+		// the j-th result is the (offset+j)-th live key
+		for i := 0; i < m; i++ {
+			if i == dead {
+				continue
+			}
+			rank := i
+			if i > dead {
+				rank = i - 1
+			}
+			ok = vAnd(ok, vImplies(offset+j == rank, int(r.H.dataPos) == i+1))
+		}
+	}
+	vAssert("c03.tree.elements", ok)
+}
